@@ -66,6 +66,10 @@ type PassOut struct {
 	Claims   []ClaimPlacement    `json:"claims"`
 	Errors   []string            `json:"errors"`
 	Writes   int64               `json:"writes"`
+	// DRA: ResourceClaims the result allocated / of those from template devices / from counter-consuming template partitions
+	DraClaims      int `json:"draClaims"`
+	DraTmpl        int `json:"draTmpl"`
+	DraTmplCounter int `json:"draTmplCounter"`
 }
 
 type ProvOut struct {
@@ -218,6 +222,7 @@ func implProvision(raw json.RawMessage) (any, error) {
 			po.Errors = append(po.Errors, p.Name)
 		}
 		sort.Strings(po.Errors)
+		po.DraClaims, po.DraTmplCounter, po.DraTmpl = draSummary(res)
 		if cur, err = take(); err != nil {
 			return nil, err
 		}
@@ -253,6 +258,12 @@ func genProvision(r *rand.Rand, t core.Tier) any {
 		ext.InvalidPods = []string{s.Pods[r.IntN(len(s.Pods))].Name}
 	}
 	ext.DefaultSpread = r.Float64() < 0.15
+	if r.Float64() < 0.3 {
+		ext.DRA = genDra(r, s)
+	}
+	if r.Float64() < 0.15 {
+		ext.UntrackedAntiPods = 1 + r.IntN(2)
+	}
 	in := PassIn{Scn: *s, Ext: *ext, BatchMaxSec: []int{1, 4, 5, 6, 10, 30}[r.IntN(6)], Healthy: []string{}, Ack: []string{}}
 	for _, np := range s.Pools {
 		if r.Float64() < 0.5 {
@@ -305,10 +316,23 @@ func provLabels(raw json.RawMessage, impl any) []string {
 			if es, _ := pm["errors"].([]any); len(es) > 0 {
 				l = append(l, "pod-errors")
 			}
+			if n, _ := pm["draClaims"].(json.Number); n != "" && n != "0" {
+				l = append(l, "dra:allocates-claims")
+			}
+			if n, _ := pm["draTmpl"].(json.Number); n != "" && n != "0" {
+				l = append(l, "dra:allocates-template-devices")
+			}
+			if n, _ := pm["draTmplCounter"].(json.Number); n != "" && n != "0" {
+				l = append(l, "dra:allocates-template-counter-partitions")
+			}
 		}
 	}
 	for _, p := range in.Passes {
 		l = append(l, "mode:"+p.Mode)
+	}
+	l = append(l, draLabels(in.Ext.DRA)...)
+	if in.Ext.UntrackedAntiPods > 0 {
+		l = append(l, "anti-affinity-pod-event-before-node-event")
 	}
 	return l
 }
@@ -357,6 +381,16 @@ func shrinkProv(raw json.RawMessage) []any {
 			x.Scn.DaemonSets = []world.DaemonSet{}
 		}
 		out = append(out, x)
+	}
+	if in.Ext.DRA != nil {
+		x := in
+		x.Ext.DRA = nil
+		out = append(out, x)
+		for _, sd := range shrinkDra(in.Ext.DRA) {
+			y := in
+			y.Ext.DRA = sd
+			out = append(out, y)
+		}
 	}
 	return out
 }
